@@ -139,9 +139,10 @@ impl Report {
         *self.counters.entry(k.to_string()).or_insert(0) += 1;
     }
     pub fn finding(&mut self, kind: &str, what: &str, input: &str, detail: &str, key: &str) {
-        // keep the first few per (kind, what); count the rest
+        // keep the first few per (kind, what, key) - so that listed known findings can never use up
+        // the room of a new finding of the same kind - and count the rest
         self.count(&format!("finding.{}.{}", kind, what));
-        if self.findings.iter().filter(|f| f.kind == kind && f.what == what).count() < 5 {
+        if self.findings.iter().filter(|f| f.kind == kind && f.what == what && f.key == key).count() < 5 {
             self.findings.push(Finding {
                 kind: kind.to_string(),
                 what: what.to_string(),
